@@ -117,6 +117,19 @@ func runC12(t *mon.T, raw json.RawMessage) {
 		t.Cover("header-shape:many-roots")
 	}
 	blks := content.Blocks
+	if cfg.MaxCid == 1 {
+		// MaxIndexCidSize exactly at the longest CID the session stores: what every Put accepts, a
+		// reopening must accept too
+		cfg.MaxCid = 0
+		for _, b := range blks {
+			if sc, _, _ := refcar.SplitCid(b.Cid); (!sc.IsIdentity() || cfg.StoreID) && uint64(len(b.Cid)) > cfg.MaxCid {
+				cfg.MaxCid = uint64(len(b.Cid))
+			}
+		}
+		if cfg.MaxCid > 0 {
+			t.Cover("cid-limit-exactly-at-the-longest-stored-cid")
+		}
+	}
 	if d.Big > 0 && len(blks) > 0 {
 		big := make([]byte, d.Big)
 		for i := 0; i < len(big); i += 4093 {
@@ -325,7 +338,7 @@ func c12Mismatch(t *mon.T, d c12Desc, s *c12Session, r *gen.RandT, roots []cid.C
 
 func genC12(g *mon.G) {
 	r := gen.Rand(g.Seed)
-	cfgs := []lab.Cfg{{}, {DataPad: 9, IndexPad: 3}, {V1: true}, {StoreID: true, Sorted: true}, {WholeCID: true, AllowDup: true}, {DataPad: 1413, StoreID: true, WholeCID: true}, {V1: true, DataPad: 300}, {MaxSec: 64}}
+	cfgs := []lab.Cfg{{}, {DataPad: 9, IndexPad: 3}, {V1: true}, {StoreID: true, Sorted: true}, {WholeCID: true, AllowDup: true}, {DataPad: 1413, StoreID: true, WholeCID: true}, {V1: true, DataPad: 300}, {MaxSec: 64}, {MaxCid: 1}}
 	if g.Thorough() {
 		cfgs = append(cfgs, lab.Cfg{V1: true, StoreID: true}, lab.Cfg{IndexPad: 1024, Sorted: true}, lab.Cfg{V1: true, AllowDup: true, WholeCID: true}, lab.Cfg{DataPad: 1, ZeroEOF: true})
 	}
